@@ -585,7 +585,9 @@ impl Property for C07 {
 
     fn run(&self, case: &Case, cx: &mut Cx) -> Result<(), String> {
         if let Some(sw) = &case.sweep {
-            return crate::sweep::run(sw, cx, crate::sweep::Rule::Spend);
+            // "debits ... or consumes a message for an address": two invariants, alternating
+            let rule = if sw.pick % 2 == 0 { crate::sweep::Rule::Spend } else { crate::sweep::Rule::Consume };
+            return crate::sweep::run(sw, cx, rule);
         }
         let ep = case.ep;
         let amount: i128 = if case.amount == 250 { 500 } else { case.amount as i128 };
